@@ -54,15 +54,19 @@ try:
     res["demo_dir"] = pkgdir
 finally:
     sh("git -C /repo worktree remove --force %s" % wt)
-# run the check against /repo with the patch applied
-rc, out = sh("git -C /repo status --porcelain"); assert out.strip() == "", "repo not clean: " + out
-rc, out = sh("git -C /repo apply %s" % patch)
-try:
-    rc, out = sh("./check %s --tier quick" % prop, cwd="/verif", timeout=3000)
-    res["check_rc"] = rc
-    res["check_lines"] = [l for l in out.splitlines() if "VIOLATION" in l or "KNOWN" in l or "tier=" in l]
-finally:
-    sh("git -C /repo checkout -- .")
+# run the check against /repo with the patch applied (SEED_CONFIRM_ONLY=1: confirmation only, /repo is not touched;
+# lib/seedsweep.py <name> runs the check later)
+if os.environ.get("SEED_CONFIRM_ONLY"):
+    res["check_rc"], res["check_lines"] = None, []
+else:
+    rc, out = sh("git -C /repo status --porcelain"); assert out.strip() == "", "repo not clean: " + out
+    rc, out = sh("git -C /repo apply %s" % patch)
+    try:
+        rc, out = sh("./check %s --tier quick" % prop, cwd="/verif", timeout=3000)
+        res["check_rc"] = rc
+        res["check_lines"] = [l for l in out.splitlines() if "VIOLATION" in l or "KNOWN" in l or "tier=" in l]
+    finally:
+        sh("git -C /repo checkout -- .")
 confirmed = res.get("suite_with_patch") == "ok" and res.get("demo_with_patch") == "FAIL" and res.get("demo_without_patch") == "ok" and res.get("build_rc") == 0
 res["confirmed"] = confirmed
 res["detected"] = res.get("check_rc") == 1
